@@ -101,6 +101,7 @@ type Frame struct {
 	depth    int
 	namedResults []*ssa.Alloc
 	callSite string
+	cloCells map[*ssa.Alloc]*Closure // locals holding a function literal that is only called
 	inPanicDefers bool
 }
 
@@ -123,6 +124,7 @@ type retState struct {
 type panicState struct {
 	st  *State
 	val Term // Iface
+	why string
 }
 
 type loopInfo struct {
